@@ -21,12 +21,20 @@ witness that the check replays on the real library (corpus/C06/two-groups.json),
 `_partial` form with the excluded class explicit.  Two other parts were false of the pinned commit
 and hold since the repairs a6564de (inherited entries are resolved again on the subclass) and
 7e0a217 (function form de-duplicates the Parameter names): `C06_full_deps_holds`, `C06_full_fn_holds`.
-Scope of the theorems: methods that only log.  An on_init method that assigns a parameter during
-construction is modelled (`instantiateA`) and judged by the oracle (`specInit`) only — no theorem.
-Not modelled: dotted dependencies (C07), async/generator methods, `param.trigger`, nested batches,
-methods that assign parameters after construction (cascades are C03/C04).
+Scope: the theorems of the sections "Instances" and "Function form" are about methods that only log and
+flat batches (closed forms over the compact dispatcher of Instance.lean).  The section "Methods that assign;
+nested batch blocks" is about the fuel-indexed interpreter of Depends/Cascade.lean (callbacks re-enter the
+setter; `batch_call_watchers` blocks nest): partial correctness (the run is assumed to terminate within the
+fuel and to meet only assignable keys), any bodies for `watch=True` methods, methods run in queueing mode
+(`watch='queued'`) only log.  The driver runs every case through this interpreter, compares its trace with
+the implementation's, and checks per case that it agrees with the compact dispatcher (log-only methods) and
+with `Dispatch.Model.run`.  An on_init method that assigns a parameter during construction is modelled
+(`instantiateA`) and judged by the oracle (`specInit`) only — no theorem.
+Not modelled: dotted dependencies (C07), async/generator methods, `param.trigger`, `watch='queued'` methods
+that assign, method bodies that batch or update, exceptions raised by methods.
 -/
 import ParamVerif.Depends.InstanceLemmas
+import ParamVerif.Depends.CascadeLemmas
 
 namespace ParamVerif.Depends
 
@@ -313,6 +321,96 @@ theorem program_from_hierarchy (h : Hierarchy) (fuel : Nat) (c : Cls) (t : List 
     (entry_deps_are_deps_of_resolved_method h fuel c t hwf ht e he).2.2 hkind ops _ w'
     (instantiate_instanceWorld t vals) hr
 
+/-! ## Methods that assign; nested batch blocks
+
+A UNIT of change (`T.unitsL`, Depends/CascadeSpec.lean) is a statement that is not inside another statement:
+an assignment made while nothing is being batched — by the program or by the body of a method —, or an
+outermost `update` / `batch_call_watchers` block with everything nested in it.  `u.changed`: the keys its
+assignments changed; `u.calls`: the invocations it caused directly (not those caused by assignments that the
+invoked methods made: these are units of their own). -/
+
+/-- **C06 (every unit of change, watcher level).**  From a quiet world (no batch open, nothing queued), whatever
+the bodies of the `watch=True` methods assign: any statement — assignment, slot assignment, `update`, `batch`
+blocks nested to any depth — that terminates leaves a quiet world, and EVERY unit of change in its trace, the
+statement itself and, recursively, each assignment made by a method that was caused to run, invoked each
+registered watcher exactly once if the unit changed a key the watcher is registered for and not at all otherwise
+— whether the method making the assignment was run by a setter or by the flush of an `update` / a batch. -/
+theorem every_unit_calls_each_touched_watcher_exactly_once (bs : Bodies) (f : Nat) (b : Blk) (w w' : IWorld) (tr : List T)
+    (hW : QW bs w) (h : runC bs f (.blk b) w = some (true, w', tr)) :
+    QW bs w' ∧ w'.regs = w.regs ∧ ∀ u ∈ T.unitsL true tr, ∀ m, u.calls.count m = nTouched w.regs m u.changed :=
+  (good bs f).blk b w w' tr hW h
+
+/-- **C06 (exactly once per unit of change iff a dependency changed).**  On an idle instance of a class with
+table `table`: for a registered method whose dependencies are of one kind (values, or one Parameter attribute:
+`value-and-slot-two-groups` is the recorded exception), every unit of change of the statement's trace —
+including the assignments made by methods, run by a setter or by a flush — called the method exactly once if the
+unit changed one of its dependencies, and not at all otherwise; and the instance is idle again. -/
+theorem method_called_exactly_once_per_unit_iff_a_dependency_changed (table : List Entry) (bs : Bodies) (f : Nat) (b : Blk)
+    (w w' : IWorld) (tr : List T) (e : Entry) (hW : InstanceWorld table w)
+    (hq : ∀ x ∈ w.regs, x.queued = true → bodyOf bs x.method = [])
+    (hn : (table.map (·.name)).Nodup) (he : e ∈ table) (hcls : ∀ d ∈ e.deps, d.cls = e.origin)
+    (hkind : ∀ d1 ∈ e.deps, ∀ d2 ∈ e.deps, d1.what = d2.what)
+    (h : runC bs f (.blk b) w = some (true, w', tr)) :
+    InstanceWorld table w' ∧
+      ∀ u ∈ T.unitsL true tr, u.calls.count e.name = expectedCalls (e.deps.map keyOf) u.changed := by
+  obtain ⟨q, r, o⟩ := (good bs f).blk b w w' tr (hW.quiet bs hq) h
+  refine ⟨hW.of_quiet q r, fun u hu => ?_⟩
+  rw [o u hu e.name, nTouched_table hW hn e he hcls hkind]
+
+/-- **C06 (a nested block belongs to the outer one).**  A `batch_call_watchers` block, whatever blocks and
+`update`s are nested in it, is ONE unit: its trace is a single node, whose invocations — all made at the exit of
+the outermost block — are one per watcher registered for a key changed anywhere inside. -/
+theorem nested_blocks_are_one_unit (bs : Bodies) (f : Nat) (body : List Blk) (w w' : IWorld) (tr : List T)
+    (hW : QW bs w) (h : runC bs f (.blk (.batch body)) w = some (true, w', tr)) :
+    ∃ u, tr = [u] ∧ ∀ m, u.calls.count m = nTouched w.regs m u.changed := by
+  obtain ⟨u, rfl, hu⟩ := blk_single bs f _ w w' tr h
+  exact ⟨u, rfl, ((good bs f).blk _ w w' _ hW h).2.2 u hu⟩
+
+/-- **C06 (all programs with assigning methods, from the hierarchy to the instance).**  For a well-formed
+hierarchy, a fresh instance of class `c` and any program (statements as above) that terminates: for every
+registered method whose dependencies are of one kind — the dependencies of the method `c` resolves —, every
+unit of change of every statement's trace called it exactly once iff the unit changed one of them; and the
+instance is idle at the end. -/
+theorem cascade_program_from_hierarchy (h : Hierarchy) (fuel : Nat) (c : Cls) (t : List Entry) (vals : List (Key × Int))
+    (hwf : wfClassB h c = true) (ht : dependsTable h fuel c = .ok t) (bs : Bodies)
+    (hq : ∀ e ∈ t, e.queued = true → bodyOf bs e.name = []) (e : Entry) (he : e ∈ t)
+    (hkind : ∀ d1 ∈ e.deps, ∀ d2 ∈ e.deps, d1.what = d2.what) (f : Nat) (prog : List Blk) (w' : IWorld) (trs : List (List T))
+    (hr : runProg bs f (instantiate t vals) prog = some (w', trs)) :
+    InstanceWorld t w' ∧
+      ∀ tr ∈ trs, ∀ u ∈ T.unitsL true tr, u.calls.count e.name = expectedCalls (e.deps.map keyOf) u.changed := by
+  have hn := table_one_entry_per_method h fuel c t hwf ht
+  have hcls := (entry_deps_are_deps_of_resolved_method h fuel c t hwf ht e he).2.2
+  have key : ∀ (prog : List Blk) (w w' : IWorld) (trs : List (List T)), InstanceWorld t w →
+      (∀ x ∈ w.regs, x.queued = true → bodyOf bs x.method = []) → runProg bs f w prog = some (w', trs) →
+      InstanceWorld t w' ∧
+        ∀ tr ∈ trs, ∀ u ∈ T.unitsL true tr, u.calls.count e.name = expectedCalls (e.deps.map keyOf) u.changed := by
+    intro prog
+    induction prog with
+    | nil =>
+      intro w w' trs hW _ hr
+      simp only [runProg, Option.some.injEq, Prod.mk.injEq] at hr
+      obtain ⟨rfl, rfl⟩ := hr
+      exact ⟨hW, fun tr htr => by cases htr⟩
+    | cons b rest ih =>
+      intro w w' trs hW hqw hr
+      simp only [runProg] at hr
+      split at hr
+      · rename_i w1 tr1 h1
+        split at hr
+        · rename_i w2 trs2 h2
+          simp only [Option.some.injEq, Prod.mk.injEq] at hr
+          obtain ⟨rfl, rfl⟩ := hr
+          obtain ⟨hW1, o1⟩ := method_called_exactly_once_per_unit_iff_a_dependency_changed t bs f b w w1 tr1 e hW hqw hn he hcls hkind h1
+          have hr1 : w1.regs = w.regs := ((good bs f).blk b w w1 tr1 (hW.quiet bs hqw) h1).2.1
+          obtain ⟨hW2, o2⟩ := ih w1 _ trs2 hW1 (by rw [hr1]; exact hqw) h2
+          refine ⟨hW2, fun tr htr => ?_⟩
+          rcases List.mem_cons.1 htr with rfl | htr
+          · exact o1
+          · exact o2 tr htr
+        · simp at hr
+      · simp at hr
+  exact key prog _ w' trs (instantiate_instanceWorld t vals) (instantiate_qlog t vals bs hq) hr
+
 /-! ## Function form -/
 
 /-- **C06 (the same holds for functions decorated with Parameter-object dependencies).**  For any
@@ -401,5 +499,24 @@ example : (runOps (instantiate exTable exVals) [.simple (.set ⟨"p", "value"⟩
 example : DependsOn exH 0 (some ⟨[⟨"m", "value"⟩, ⟨"q", "value"⟩], true, false, true⟩) ⟨"p", "value"⟩ :=
   .via _ ⟨"m", "value"⟩ 0 ⟨"m", some ⟨[⟨"p", "value"⟩], true, false, false⟩⟩ _ (by decide) (by decide) (by decide)
     (.direct _ ⟨"p", "value"⟩ (by decide) (by decide))
+
+-- methods that assign: `relay` (on p0) assigns p1 then p2; `sink` watches p1 and p2 and runs once per assignment,
+-- whichever way p0 was changed; a block nested in a block is delivered once, at the outer exit
+def cTable : List Entry := [⟨"relay", false, false, [⟨0, "p0", "value"⟩], 0⟩,
+  ⟨"sink", false, false, [⟨0, "p1", "value"⟩, ⟨0, "p2", "value"⟩], 0⟩]
+def cVals : List (Key × Int) := [(⟨"p0", "value"⟩, 0), (⟨"p1", "value"⟩, 0), (⟨"p2", "value"⟩, 0)]
+def cBodies : Bodies := [("relay", [("p1", 1), ("p2", 1)])]
+def cRun (b : Blk) : Option (Bool × List Name) :=
+  (runC cBodies 24 (.blk b) (instantiate cTable cVals)).map (fun r => (r.1, T.allCallsL r.2.2))
+example : cRun (.set ⟨"p0", "value"⟩ 1) = some (true, ["relay", "sink", "sink"]) := by decide
+example : cRun (.update [("p0", 1)]) = some (true, ["relay", "sink", "sink"]) := by decide
+example : cRun (.batch [.set ⟨"p0", "value"⟩ 1]) = some (true, ["relay", "sink", "sink"]) := by decide
+example : cRun (.batch [.set ⟨"p0", "value"⟩ 1, .batch [.set ⟨"p1", "value"⟩ 5], .set ⟨"p0", "value"⟩ 2]) =
+    some (true, ["relay", "sink", "sink", "sink"]) := by decide
+example : (runC cBodies 24 (.blk (.batch [.set ⟨"p0", "value"⟩ 1, .batch [.set ⟨"p1", "value"⟩ 5], .set ⟨"p0", "value"⟩ 2]))
+    (instantiate cTable cVals)).map (fun r => (T.unitsL true r.2.2).map (fun u => (u.changed.map (·.name), u.calls))) =
+    some [(["p0", "p1", "p0"], ["relay", "sink"]), (["p1"], ["sink"]), (["p2"], ["sink"])] := by decide
+example : QW cBodies (instantiate cTable cVals) :=
+  (instantiate_instanceWorld cTable cVals).quiet cBodies (instantiate_qlog cTable cVals cBodies (by decide))
 
 end ParamVerif.Depends
